@@ -1,5 +1,6 @@
-"""Regenerate every translated Gallina file (used by bin/setup; each check
-regenerates its own files again on every run)."""
+"""Regenerate every translated Gallina file from the current sources (bin/setup, and the start of every check run: a
+check regenerates the files of its own group strictly afterwards; here a translator failure keeps the file on disk,
+so that only the checks that depend on that file are affected)."""
 import os
 import sys
 
@@ -7,14 +8,18 @@ from vlib import core
 
 
 def generate_all(src, coq, strict=True):
-    from . import date_gen, pykernel
-    jobs = [("Gen/Date.v", date_gen.generate)]
+    from . import date_gen, pred_gen, lexer_gen, secure_gen
+    jobs = [("Gen/Date.v", date_gen.generate), ("Gen/PredTable.v", pred_gen.generate), ("Gen/LexGen.v", lexer_gen.generate),
+            ("Gen/SecureTable.v", lambda s: secure_gen.generate(s)[0])]
+    failed = []
     for rel, fn in jobs:
         try:
             text = fn(src)
         except Exception as e:
             if strict:
                 raise
-            sys.stderr.write("translation of %s failed (%r); keeping the committed snapshot\n" % (rel, e))
+            failed.append(rel)
+            sys.stderr.write("translation of %s failed (%r); keeping the file on disk\n" % (rel, e))
             continue
         core.write_if_changed(os.path.join(coq, rel), text)
+    return failed
